@@ -147,7 +147,7 @@ def run_cell(cfg, cx):
         m2, o2, loss, _ = train_step(map_and_loss, model, optim, o, xx, yy, None)
         return (jax.tree_util.tree_leaves(eqx.filter(m2, eqx.is_array)), jax.tree_util.tree_leaves(eqx.filter(o2, eqx.is_array)), loss)
 
-    jp, shp = jax.make_jaxpr(step, return_shape=True)(p_leaves, o_leaves, x_leaves)
+    jp, shp = I.trace_real(step, [p_leaves, o_leaves, x_leaves])
     I.STATS["jaxprs_traced"] += 1
     I.STATS["jaxpr_eqns_total"] += I.count_eqns(jp.jaxpr)
     n_p, n_o, n_x = len(p_leaves), len(o_leaves), len(x_leaves)
